@@ -13,7 +13,7 @@ from . import common, grammar_cfgs
 from .common import log
 
 EXE = "pvh_grammar"
-FOCI = ["decls", "loose", "types", "flat", "nest", "exprs", "ops", "lists", "args", "conds", "atoms", "undoc"]
+FOCI = ["decls", "loose", "types", "flat", "nest", "exprs", "ops", "lists", "commas", "args", "conds", "atoms", "undoc"]
 # foci that derive forms the documents do not show (generation 1 accepts them): rejection by generation 2 is not a
 # violation there, a crash or a wrong tree is
 UNCONSTRAINED = {"loose", "undoc"}
